@@ -72,7 +72,7 @@ def gen_case(rng, n, idx):
 
 
 def generate(rng, tier):
-    n = dict(quick=4000, thorough=120000, search=60000)[tier]
+    n = dict(quick=4000, thorough=600000, search=60000)[tier]
     cases = []
     for i in range(n):
         ln = rng.range(1, 12) if rng.chance(2, 3) else rng.range(12, 60)
